@@ -22,7 +22,9 @@ Amps == {0, 1, MAXAMP, MAXAMP + 1}
 AssetCounts == {0, 1, 2, 3}
 FeePaths == {"pair.factory_update", "pair.direct_update", "pair.factory_create", "pair.instantiate",
              "trio.factory_update", "trio.direct_update", "trio.factory_create", "trio.instantiate",
-             "vault.factory_update", "vault.direct_update", "vault.factory_create", "vault.instantiate"}
+             "vault.factory_update", "vault.direct_update", "vault.factory_create", "vault.instantiate",
+             \* the same over a token-factory denom (factory/<creator>/<sub>), whose instantiation takes a branch of its own
+             "vault.factory_create_tf", "vault.instantiate_tf"}
 
 Init ==
   /\ cfg = [pairOK |-> TRUE, trioOK |-> TRUE, vaultOK |-> TRUE, amp |-> 100, grace |-> 3, dur |-> MINDUR,
